@@ -162,6 +162,11 @@ func (vc *VC) applyContract(con *Contract, key string, names []string, args []SV
 	}
 	bindResults(post, sig, result)
 	for _, e := range con.Ensures {
+		// a property's check assumes only what the same run verifies: untagged clauses and
+		// clauses tagged with the property being checked
+		if vc.prop != "" && len(e.Tags) > 0 && !hasTag(e.Tags, vc.prop) {
+			continue
+		}
 		vc.fact(R, vc.evalBool(e.E, post))
 	}
 	return result
